@@ -648,6 +648,12 @@ def _eval(t, env):
     if t0 == 'lit':
         return t[1]
     if t0 in ('param', 'local'):
+        if t[1] not in env and env.get('__fn__') is not None and t0 == 'local' and len(t) == 3:
+            # a never re-assigned local of the function: its initialiser, evaluated in the same environment
+            fn_ = env['__fn__']
+            init = fn_.single_def(t[2])
+            if init:
+                return _eval(nocast(fn_.term(init, inline=False)), env)
         return env[t[1]]
     if t0 == 'cast':
         return _eval(t[2], env)
@@ -754,6 +760,36 @@ def rule_omp_order(ctx):
         bad = [b for b in bad if not b.startswith('i ') and not b.startswith('(i')]
         obs.append(Ob('OMP-ORDER', f, omp[0], 'inside the region only chunk-private state, the reduction variable and results[i] (i = the loop variable) are written',
                       'all writes private' if not bad else '; '.join(bad[:3]), OK if not bad else VIOLATED, arm='private-writes'))
+        # the bound of the parallel loop: `for (i = 0; i < B; ++i)`
+        bound_t = None
+        loop_name = None
+        fors = [j for j in f.walk(omp[0]) if f.n(j)['c'] == 'ForStmt']
+        if fors and len(f.n(fors[0])['ch']) == 4 and f.n(fors[0])['ch'][1]:
+            ct_ = nocast(strip_cast(f.term(f.n(fors[0])['ch'][1], inline=False)))
+            if ct_[0] == 'op' and len(ct_) == 4 and ct_[1] == '<' and nocast(ct_[2])[0] == 'local':
+                bound_t, loop_name = nocast(ct_[3]), nocast(ct_[2])[1]
+        # number of chunks = parallelism (C04: "a build split into c chunks uses at most c - 1 more [segments]", c = the number of
+        # threads): proved when the bound is that variable, refuted by a witness when it evaluates to more
+        if bound_t is not None:
+            if bound_t[0] == 'local' and bound_t[1] == 'parallelism':
+                obs.append(Ob('CHUNK-COUNT', f, fors[0], 'the data is cut into exactly `parallelism` chunks (each chunk border may cost one segment)', 'the parallel loop runs i < parallelism', OK, arm='count'))
+            else:
+                wit = None
+                try:
+                    for n_, p_ in itertools.product((7, 10, 33, 64, 100003), (2, 3, 4, 16)):
+                        env = {'n': n_, 'parallelism': p_, 'chunk_size': n_ // p_, '__fn__': f}
+                        nb = _eval(bound_t, env)
+                        if nb > p_:
+                            wit = (n_, p_, nb)
+                            break
+                    st_c = VIOLATED if wit else UNDECIDED
+                    why_c = (f"the parallel loop runs i < {fmt_term(bound_t)[:60]}: for n={wit[0]}, parallelism={wit[1]} that is {wit[2]} chunks - one more chunk border, and segment, than the bound allows" if wit
+                             else f"the parallel loop runs i < {fmt_term(bound_t)[:60]}, which never exceeded parallelism on the witnesses but is not that variable")
+                except Exception:
+                    st_c, why_c = UNDECIDED, f"the parallel loop runs i < {fmt_term(bound_t)[:60]}, which this rule cannot evaluate"
+                obs.append(Ob('CHUNK-COUNT', f, fors[0], 'the data is cut into exactly `parallelism` chunks (each chunk border may cost one segment)', why_c, st_c, arm='count'))
+        else:
+            obs.append(Ob('CHUNK-COUNT', f, omp[0], 'the data is cut into exactly `parallelism` chunks (each chunk border may cost one segment)', 'the bound of the parallel loop is not of the form i < B', UNDECIDED, arm='count'))
         # last chunk ends at n
         calls = [c for c in f.calls_to(MS) if c in body]
         okl = None
@@ -802,13 +838,18 @@ def rule_omp_order(ctx):
                 okl = True
                 whyl += ' — equals n exactly for the last chunk (i == parallelism - 1)' + ('' if f.single_def(nocast(f.term(a[2], inline=False))[2]) else '; afterwards it only grows by guarded ++ while < n')
             else:
-                # refutation by witness: evaluate the expression for concrete (n, parallelism) at i = parallelism - 1
+                # refutation by witness: evaluate the expression for concrete (n, parallelism) at the last iteration of the loop
+                # (i = bound - 1, the bound of the parallel loop evaluated in the same environment; `parallelism` if it is that)
                 witness = None
                 try:
                     for n_, p_ in itertools.product((7, 10, 33, 100003), (2, 3, 4, 16)):
                         cs = n_ // p_
-                        i_ = p_ - 1
-                        env = {'n': n_, 'parallelism': p_, 'chunk_size': cs, 'i': i_, 'first': i_ * cs}
+                        env = {'n': n_, 'parallelism': p_, 'chunk_size': cs, '__fn__': f}
+                        nb = _eval(bound_t, env) if bound_t is not None else p_
+                        i_ = nb - 1
+                        env.update({loop_name or 'i': i_})
+                        if 'first' not in env:
+                            env['first'] = i_ * cs
                         v = _eval(last_t, env)
                         if v != n_:
                             witness = (n_, p_, v)
@@ -1105,6 +1146,15 @@ def rule_key_arith(ctx):
                 nd = fn_.n(i)
                 if nd['c'] == 'BinaryOperator' and nd['op'] in ('-', '+') and reachable(fn_, i):
                     a, b = fn_.term(nd['ch'][0], inline=True), fn_.term(nd['ch'][1], inline=True)
+                    if nd['op'] == '+' and (u.type(nd['t']) or {}).get('k') == 'float':
+                        # a floating key plus one is not the next key: for a gap of at most 1 the guard `x + 1 < next` drops the
+                        # successor point, and above 2^24 / 2^53 x + 1 == x; the successor is nextafter(x, +inf)
+                        for ka, kb in ((a, b), (b, a)):
+                            kb_ = strip_cast(kb)
+                            if any(is_in_call(s, pname) for s in subterms(ka)) and not any(is_in_call(s, pname) for s in subterms(kb)) and \
+                                    (kb_ == ('lit', 1) or (kb_[0] == 'flit' and str(kb_[1]) in ('1', '1.0'))):
+                                obs.append(Ob('KEY-ARITH', fn_, i, 'the successor of a floating-point key is std::nextafter(key, +infinity), never key + 1',
+                                              f"`{fmt_term(fn_.term(i, inline=False))[:80]}` evaluated in {u.type(nd['t'])['s']}", VIOLATED, arm='float-successor'))
                     if any(is_in_call(s, pname) for s in subterms(a)) and any(is_in_call(s, pname) for s in subterms(b)):
                         n_ops += 1
                         rt = u.type(nd['t'])
@@ -1734,9 +1784,38 @@ def rule_slope_order(ctx, exact=True):
     return obs
 
 
+def rule_model_per_call(ctx):
+    """the driver's model object is an automatic local constructed from the driver's own epsilon on every call: a static or
+    thread_local one is constructed once, and every later call with another epsilon silently segments with the first"""
+    obs = []
+    n = 0
+    for f in six(ctx):
+        eps = ('param', f.params[3]['name'])
+        for i in f.all_ids():
+            nd = f.n(i)
+            if nd['c'] != 'DeclStmt' or not reachable(f, i):
+                continue
+            for v in nd.get('vars', []):
+                ty = f.unit.base_type(v.get('t')) if v.get('t') else None
+                if not ty or not str(ty.get('s', '')).startswith(('pgm::internal::OptimalPiecewiseLinearModel<', 'OptimalPiecewiseLinearModel<')) or 'CanonicalSegment' in str(ty.get('s', '')):
+                    continue
+                n += 1
+                init = nocast(strip_cast(f.term(v['init'], inline=True))) if v.get('init') else None
+                from_eps = init is not None and init[0] == 'construct' and len(init[2]) == 1 and nocast(strip_cast(init[2][0])) == eps
+                if v.get('static'):
+                    obs.append(Ob('AGREE-EPS', f, i, 'the model is constructed on every call from the epsilon of that call', f"`{v['name']}` has static / thread storage duration: it is constructed by the first call only, later calls reuse that epsilon",
+                                  VIOLATED, arm='model-per-call'))
+                else:
+                    obs.append(Ob('AGREE-EPS', f, i, 'the model is constructed on every call from the epsilon of that call', f"`{v['name']}` is an automatic local" + (' constructed from the epsilon parameter' if from_eps else f" constructed from `{fmt_term(init)[:50] if init else '?'}`"),
+                                  OK if from_eps else UNDECIDED, arm='model-per-call'))
+    if n == 0:
+        obs.append(Ob('AGREE-EPS', None, 0, 'the model is constructed on every call from the epsilon of that call', 'no OptimalPiecewiseLinearModel local found in make_segmentation', UNDECIDED, arm='model-per-call'))
+    return obs
+
+
 def rules_c03(ctx):
-    return rule_no_drop(ctx) + rule_index_cover(ctx) + rule_rank_agree(ctx) + rule_omp_order(ctx) + rule_seam(ctx) + rule_key_arith(ctx) + [o for o in rule_geom_guards(ctx, exact=False) if o.rule == 'GEOM-GUARDS'] + rule_slope_order(ctx, exact=False) + rule_precision(ctx)
+    return rule_model_per_call(ctx) + rule_no_drop(ctx) + rule_index_cover(ctx) + rule_rank_agree(ctx) + [o for o in rule_omp_order(ctx) if o.rule != 'CHUNK-COUNT'] + rule_seam(ctx) + rule_key_arith(ctx) + [o for o in rule_geom_guards(ctx, exact=False) if o.rule == 'GEOM-GUARDS'] + rule_slope_order(ctx, exact=False) + rule_precision(ctx)
 
 
 def rules_c04(ctx):
-    return rule_cut_sites(ctx) + rule_geom_guards(ctx) + rule_slope_order(ctx)
+    return rule_cut_sites(ctx) + rule_geom_guards(ctx) + rule_slope_order(ctx) + [o for o in rule_omp_order(ctx) if o.rule == 'CHUNK-COUNT']
